@@ -12,6 +12,8 @@ type Worker struct {
 	workQ *Q
 	wg    *sync.WaitGroup
 	ca    CacheFacade
+	//start once
+	startOnce sync.Once
 }
 
 func NewWorker(qSize int, wg *sync.WaitGroup, ca CacheFacade) *Worker {
@@ -77,7 +79,9 @@ func (w *Worker) DoUpsertThenRenewInCache(ctx context.Context,
 
 // Start : start handler go routine
 func (w *Worker) Start() {
-	go w.runLoop()
+	w.startOnce.Do(func() {
+		go w.runLoop()
+	})
 }
 
 // Stop : close queue, not accept input anymore.
